@@ -313,7 +313,11 @@ func init() {
 			return sym{fr.i.ex.NewVar(concreteString(args[0]), 64), types.Uint64}
 		},
 		"symChoose": func(fr *frame, args []value) value {
-			return fr.i.ex.Choose(int(asInt64(args[1])))
+			return fr.i.ex.ChooseNamed(concreteString(args[0]), int(asInt64(args[1])))
+		},
+		"symMonitor": func(fr *frame, args []value) value {
+			installMonitor(fr.i, concreteString(args[0]))
+			return nil
 		},
 		"symConcretize": func(fr *frame, args []value) value {
 			return int(concreteInt64(args[0]))
@@ -552,4 +556,56 @@ func sameShape(a, b types.Type) bool {
 		return true
 	}
 	return types.Identical(a, b)
+}
+
+
+// installMonitor installs an engine-side observer requested by a harness.
+//   "reentry": no generated parseRule may be entered for a (rule, offset) pair
+//              that is already being evaluated (C07: unbounded recursion).
+func installMonitor(i *interpreter, kind string) {
+	switch kind {
+	case "reentry":
+		type key struct {
+			rule *value
+			off  int64
+		}
+		active := map[key]int{}
+		var stack []key
+		i.monitor = &monitor{
+			onEnter: func(fr *frame, fn *ssa.Function, args []value) {
+				if fn.Name() != "parseRule" || fn.Signature.Recv() == nil || len(args) != 2 {
+					return
+				}
+				p := (*args[0].(*value)).(structure)
+				pt := p[fieldIndex(mustDeref(fn.Signature.Recv().Type()), "pt")].(structure)
+				pos := pt[0].(structure)
+				off := asInt64raw(pos[2])
+				k := key{args[1].(*value), off}
+				if active[k] > 0 {
+					name := ""
+					if r, ok := (*k.rule).(structure); ok && len(r) > 1 {
+						if s, ok := r[1].(string); ok {
+							name = s
+						}
+					}
+					fr.i.ex.addCex(fmt.Sprintf("C07: rule %s re-entered at offset %d while it is being evaluated there (unbounded recursion)", name, off), fr.i.ex.model())
+					panic(pathEnd{"assertion failed"})
+				}
+				active[k]++
+				stack = append(stack, k)
+			},
+			onExit: func(fr *frame, fn *ssa.Function) {
+				if fn.Name() != "parseRule" || fn.Signature.Recv() == nil || len(stack) == 0 {
+					return
+				}
+				k := stack[len(stack)-1]
+				stack = stack[:len(stack)-1]
+				active[k]--
+			},
+			onStore:    func(fr *frame, addr *value) {},
+			onMapWrite: func(fr *frame, m *omap) {},
+		}
+	default:
+		unsupported("unknown monitor %q", kind)
+	}
 }
